@@ -123,6 +123,10 @@ var progSpecs = []progSpec{
 	{"component_definition", "Property", "SetArg", "prop_SetArg", ""},
 	{"component_definition", "Property", "AddArg", "prop_AddArg", ""},
 	{"util/reflectx", "", "SetValue", "reflectx_SetValue", ""},
+	{"configure/binder", "ViperBinder", "Get", "binder_Get", ""},
+	{"configure/binder", "", "cloneValue", "binder_cloneValue", ""},
+	{"configure/binder", "ViperBinder", "Set", "binder_Set", ""},
+	{"configure/binder", "ViperBinder", "SetConfig", "binder_SetConfig", ""},
 }
 
 // conversions whose single argument is passed through unchanged
@@ -369,6 +373,10 @@ func (t *tr) call(c *ast.CallExpr) string {
 			}
 			if len(c.Args) == 1 {
 				return fmt.Sprintf("(.call %s [])", lq("make:"+exprName(c.Args[0]))) // make(T) of a map / channel type: a fresh empty value
+			}
+			if len(c.Args) == 2 {
+				// make(T, n): a map with a capacity hint, or a slice of n zero values — the primitive "make:T" decides
+				return fmt.Sprintf("(.call %s [%s])", lq("make:"+exprName(c.Args[0])), t.expr(c.Args[1]))
 			}
 			return t.unsupported("make", c)
 		case "new", "panic", "recover", "copy", "delete", "cap":
